@@ -5,6 +5,7 @@ from props.common import svt, gens, enc_failure_info, summarize_cfg, ref_decode_
 
 ID = "C26"
 LEVEL = "exploration"
+TAG_KEYS = True   # violation keys get the configuration feature tag appended (engine.feature_tag)
 RULE = ("Hypothesis draws 8-bit (configuration with stat_report=1, content, N): sizes incl. non-multiples of 8, presets, tf_level -1/0/1, hierarchical levels, overlays, "
         "16-bit pipeline; film-grain denoise 0 and superres off (outside the property's quantifier). Oracle: each packet is decoded (libaom) to its displayed picture; "
         "per plane the sum of squared differences between the submitted picture's visible samples and that picture, reduced mod 2^32, must equal luma_sse/cb_sse/cr_sse "
